@@ -419,8 +419,17 @@ func runC20(c *core.Ctx) {
 			if bv.Cond.Expr == nil || !g.Dominates(marker.V, bv) {
 				continue
 			}
-			if strings.ReplaceAll(core.ExprStr(bv.Cond.Expr), " ", "") == "err==io.EOF" {
-				tv := succ(bv, core.EdgeTrue)
+			// the edge on which the error is io.EOF (err == io.EOF taken, or err != io.EOF not taken)
+			eofLabel, isEOFTest := core.EdgeTrue, false
+			for _, l := range []core.EdgeLabel{core.EdgeTrue, core.EdgeFalse} {
+				for _, a := range bv.Implied(l) {
+					if cmp, isCmp := a.AsCmp(); isCmp && cmp.Op == token.EQL && ioPkgObj(info, cmp.R) == "EOF" && core.IsErrorType(info.TypeOf(cmp.L)) {
+						eofLabel, isEOFTest = l, true
+					}
+				}
+			}
+			if isEOFTest || strings.ReplaceAll(core.ExprStr(bv.Cond.Expr), " ", "") == "err==io.EOF" {
+				tv := succ(bv, eofLabel)
 				// the edge must leave the scan loop without passing a return
 				var loopHead *core.V
 				for _, h := range loopHeads(g) {
@@ -937,6 +946,54 @@ func runC20(c *core.Ctx) {
 			}
 			ok := len(good) > 0 && g.EdgeDominates(r, good...)
 			if !ok {
+				// the test may be reported by a folded-in helper through a boolean that has several
+				// definitions (more, err = false, err / true, nil / endBefore != s.used, nil): if one of
+				// them compares a sample of the fill level and the others are constants, the return is
+				// guarded by that boolean but the rule does not follow which definition arrives
+				viaFlag := g.GuardedBy(r, func(a core.Atom) bool {
+					id, isID := ast.Unparen(a.Expr).(*ast.Ident)
+					if !isID || a.Tag != nil {
+						return false
+					}
+					obj := info.ObjectOf(id)
+					if obj == nil || !isBoolObj(obj) {
+						return false
+					}
+					cmpDef, other := false, false
+					for _, dv := range defVertices(g, obj) {
+						as, isAs := dv.AST.(*ast.AssignStmt)
+						if !isAs || len(as.Lhs) != len(as.Rhs) {
+							if vs, isVS := dv.AST.(*ast.ValueSpec); isVS && len(vs.Values) == 0 {
+								continue
+							}
+							if _, isDS := dv.AST.(*ast.DeclStmt); isDS {
+								continue
+							}
+							other = true
+							continue
+						}
+						for i, l := range as.Lhs {
+							if core.ObjOf(info, l) != obj {
+								continue
+							}
+							if cv := core.ConstOf(info, as.Rhs[i]); cv != nil {
+								continue
+							}
+							if be, isBin := ast.Unparen(as.Rhs[i]).(*ast.BinaryExpr); isBin && (be.Op == token.EQL || be.Op == token.NEQ) && (isUsedField(be.X) || isUsedField(be.Y)) {
+								cmpDef = true
+								continue
+							}
+							other = true
+						}
+					}
+					return cmpDef && !other
+				})
+				if viaFlag {
+					o.Unrec("%s: end of input is reported under a boolean that a folded-in helper sets from the comparison of the fill level before and after the refill, among other values: which value arrives is not followed", c.Prog.Pos(rs.Pos()))
+					continue
+				}
+			}
+			if !ok {
 				o.FailAt(fn.Site(rs, ""), "%s: end of input is reported without the test that the refill added nothing: bytes that arrived with the last refill may never be searched", c.Prog.Pos(rs.Pos()))
 			}
 		}
@@ -1109,16 +1166,6 @@ func foldStringVar(c *core.Ctx, short string, e ast.Expr) string {
 func ruleEOFIdentity(c *core.Ctx) {
 	const rule = "C20-R6"
 	start := c.Prog.Func("pdf", "(*FileInfo).doRead")
-	ioPkgObj := func(info *types.Info, e ast.Expr) string {
-		sel, ok := ast.Unparen(e).(*ast.SelectorExpr)
-		if !ok {
-			return ""
-		}
-		if obj := info.ObjectOf(sel.Sel); obj != nil && obj.Pkg() != nil && obj.Pkg().Path() == "io" {
-			return obj.Name()
-		}
-		return ""
-	}
 	isWrapCall := func(info *types.Info, e ast.Expr) bool {
 		call, ok := ast.Unparen(e).(*ast.CallExpr)
 		if !ok {
@@ -1403,4 +1450,16 @@ func ruleEOFIdentity(c *core.Ctx) {
 			}
 		})
 	}
+}
+
+// ioPkgObj returns the name of the object of package io that e denotes (io.EOF), or "".
+func ioPkgObj(info *types.Info, e ast.Expr) string {
+	sel, ok := ast.Unparen(e).(*ast.SelectorExpr)
+	if !ok {
+		return ""
+	}
+	if obj := info.ObjectOf(sel.Sel); obj != nil && obj.Pkg() != nil && obj.Pkg().Path() == "io" {
+		return obj.Name()
+	}
+	return ""
 }
